@@ -424,6 +424,21 @@ func (w *hostileWorld) apply(s Step) {
 			}
 		}
 		w.Probes["transport_packets_in_fragments"]++
+	case "finooo":
+		// well-formed, in a particular order: a segment carrying data and FIN arrives ahead of a
+		// hole on the established connection, then the segment that fills the hole exactly
+		p := w.peer
+		gap := 1 + s.A%1200
+		k := 1 + s.B%300
+		w.nid++
+		seg := codec.EncodeTCP([]byte(B4), []byte(A4), &codec.TCPSeg{SrcPort: p.PPort, DstPort: 80, Seq: p.SndNxt + uint32(gap), Ack: p.RcvNxt, Flags: codec.FlagACK | codec.FlagFIN | codec.FlagPSH, Window: 65535, Payload: make([]byte, k)})
+		w.safeInject(ipv4.ProtocolNumber, codec.IPv4([]byte(B4), []byte(A4), codec.ProtoTCP, w.nid, 64, false, false, 0, seg))
+		w.nid++
+		fill := codec.EncodeTCP([]byte(B4), []byte(A4), &codec.TCPSeg{SrcPort: p.PPort, DstPort: 80, Seq: p.SndNxt, Ack: p.RcvNxt, Flags: codec.FlagACK | codec.FlagPSH, Window: 65535, Payload: make([]byte, gap)})
+		if w.Viol == nil {
+			w.safeInject(ipv4.ProtocolNumber, codec.IPv4([]byte(B4), []byte(A4), codec.ProtoTCP, w.nid, 64, false, false, 0, fill))
+		}
+		w.Probes["fin_with_data_ahead_of_a_hole"]++
 	case "runt":
 		// fd-based link only: a frame shorter than, or just as long as, an Ethernet header
 		if w.S.Link.fdrx != nil {
@@ -536,7 +551,7 @@ func (w *hostileWorld) serve() {
 
 func (w *hostileWorld) next() Step {
 	r := w.Rng
-	switch r.Pick(12, 2, 4, 2, 2, 1, 3, 1) {
+	switch r.Pick(12, 2, 4, 2, 2, 1, 3, 1, 1) {
 	case 0:
 		return Step{Op: "mut", A: r.Intn(1 << 20), B: r.Intn(1 << 20)}
 	case 1:
@@ -551,6 +566,8 @@ func (w *hostileWorld) next() Step {
 		return Step{Op: "fragvalid", A: r.Intn(1 << 20), B: r.Intn(1 << 20)}
 	case 7:
 		return Step{Op: "runt", A: r.Intn(16), B: r.Intn(1 << 20)}
+	case 8:
+		return Step{Op: "finooo", A: r.Intn(1200), B: r.Intn(300)}
 	}
 	return Step{Op: "adv", D: int64(time.Duration([]int{10, 1000, 29000, 31000, 61000}[r.Intn(5)]) * time.Millisecond)}
 }
